@@ -344,6 +344,23 @@ Fixpoint compile (vr : variant) (p : pred) : result qobj :=
   | PNot p => bind (compile vr p) invert
   end.
 
+(* predicates the API accepts by design: non-empty paths, inequalities only against numbers / strings *)
+Fixpoint wf_pred (p : pred) : bool :=
+  match p with
+  | PCmp path c k =>
+      match path with [] => false | _ => true end &&
+      (cmp_eqb c CEq || match k with KNum _ | KStr _ => true | _ => false end)
+  | PAnd a b | POr a b => wf_pred a && wf_pred b
+  | PNot a => wf_pred a
+  | _ => true
+  end.
+Fixpoint junction_free (p : pred) : bool :=
+  match p with
+  | PAnd _ _ | POr _ _ => false
+  | PNot a => junction_free a
+  | _ => true
+  end.
+
 (* ------------------------------------------------------------------ *)
 (* the predicate evaluated directly on the stored objects              *)
 (* ------------------------------------------------------------------ *)
